@@ -13,6 +13,7 @@ def run(ctx):
     RP.reentrancy(ctx, "R01.a")
     RP.float_derived_unsigned_sub(ctx, "R01.b")
     RL.reductions_never_shrink(ctx, "R01.c")
+    RL.reduce_equal_length(ctx, "R01.c")
     RL.norm_window(ctx, "R01.c")
     RK.normalize_first(ctx, "R01.d")
     RP.panic_inventory(ctx, "R01.e")
